@@ -15,7 +15,7 @@ CLAIMS = {
     ),
     "C12": dict(
         technique="static analysis: symbolic layout tables (writer = reader = reference), loop-variant certificates with interval analysis, finite flag truth table",
-        text="Decides for all values and lengths: writer table = reader table for the 26 binary codecs of _rpc/_epm incl. bit fields, padding residues, repeated elements and PDU framing; writer tables = reference tables from C706/MS-RPCE; every decoder loop has a termination/bounded-work certificate; registries complete; open enums keep their value; the verification-trailer loop ends exactly on the END bit. Does not decide: work proportional to length as a measured quantity.",
+        text="Decides for all values and lengths: writer table = reader table for the 26 binary codecs of _rpc/_epm incl. bit fields, padding residues, repeated elements and PDU framing; writer tables = reference tables from C706/MS-RPCE; every decoder loop has a termination/bounded-work certificate; registries complete; codec functions write no shared container (no memo can answer a later input with an earlier result); open enums keep their value; the verification-trailer loop ends exactly on the END bit. Does not decide: work proportional to length as a measured quantity.",
         note="Trusted base: Python int.to_bytes/from_bytes/slicing semantics; reference tables in rules/c12.py transcribed by hand from C706 ch.12-13/app. L and MS-RPCE.",
         ref="DESIGN.md section 5 / C12",
     ),
@@ -63,7 +63,7 @@ CLAIMS = {
     ),
     "C20": dict(
         technique="static analysis: string-domain evaluation of the query name over domain given/absent, sort-specification normalisation / sign-vector truth table of scan predicates, twin diff, guards",
-        text="Decides: both lookups query exactly '_ldap._tcp.dc._msdcs'(+'.'+domain iff given) as SRV with search=True; selection = priority ascending then weight descending, first; target text with trailing dot stripped and port/weight/priority copied; API functions look up only when no server is given and use the record's target; sync = async. Does not decide: dnspython's search-list semantics.",
+        text="Decides: both lookups query exactly '_ldap._tcp.dc._msdcs'(+'.'+domain iff given) as SRV with search=True; selection = priority ascending then weight descending, first; target text with trailing dot stripped and port/weight/priority copied, no record can replace another before ranking (keyed collections only by position); API functions look up only when no server is given and use the record's target; sync = async. Does not decide: dnspython's search-list semantics.",
         note="Trusted: dnspython resolve(); Python sorted().",
         ref="DESIGN.md section 5 / C20",
     ),
@@ -93,7 +93,7 @@ CLAIMS = {
     ),
     "C05": dict(
         technique="static analysis: region call graph, may-raise rules per primitive (dominating guards, interval proofs seeded by wire widths and the SID grammar, length summaries), loop certificates, recursion check",
-        text="Decides for the call-graph closure of unprotect up to DC lookup/RPC: every explicit raise is a deliberate type; every index/struct.unpack/to_bytes/dict-subscript site is proven safe by a dominating guard, a value-range proof or a length summary; every loop has a termination/bounded-work certificate (KDF walks <= 31 steps); no recursion; no swallowing handler. Does not decide: promptness in seconds; internals of third-party leaves beyond the stated summaries.",
+        text="Decides for the call-graph closure of unprotect up to DC lookup/RPC: every explicit raise is a deliberate type; every index/struct.unpack/Struct.unpack_from/to_bytes/dict-subscript/datetime-construction site is proven safe by a dominating guard, a value-range proof or a length summary; every loop has a termination/bounded-work certificate (KDF walks <= 31 steps); no recursion; no swallowing handler. Does not decide: promptness in seconds; internals of third-party leaves beyond the stated summaries.",
         note="Trusted: the external-leaf exception summary listed in the evidence; slices/int.from_bytes/len never raise.",
         ref="DESIGN.md section 5 / C05",
     ),
